@@ -9,6 +9,7 @@ COMPONENTS = {
     "variant": "comp_ops:Variant",
     "surv": "comp_surv",
     "repl": "comp_repl",
+    "gen": "comp_gen",
 }
 
 TRUSTED_BASE = [
@@ -86,10 +87,38 @@ PROPERTIES = {
         "assumptions": ["oracle contracts hold - evaluated on every record"],
     },
     "C02": {
-        "components": [("repl", 900, 30000)],
+        "components": [("repl", 900, 30000), ("gen", 60, 2000)],
+        "gen_args": {"gen": {"algos": ["de"]}},
         "rule": "parent/offspring pairs of 1..10 slots on grid-valued decision vectors (exact duplicates between offspring and against members), objectives rounded to a grid (exact ties), 0..2 inequality and 0..1 equality constraints with shifted feasibility, the operator object fresh / the shared default of DE() / used before on a problem of the other kind; distinct = hash; non-trivial = some slots replaced and some kept",
         "explanation": "theorems improves_iff, isDuplicate_iff, slotChoice_get, replaceMaskAux_get, replaceStep_perm/_length/_sorted, replaceStep_no_worse, best_monotone (induction over any sequence of generations with universally quantified offspring); correspondence: replacement mask and next population (object identities, order) equal the model's",
         "assumptions": ["pymoo's feasibility convention CV >= 0, feasible <=> CV <= 0 (checked on every record)",
                         "X-equality stands for DefaultDuplicateElimination(epsilon=0) (squared differences that underflow are not generated)"],
+    },
+    "C05": {
+        "components": [("gen", 160, 4000)],
+        "gen_args": {"gen": {"algos": ["gde3", "gde3mnn", "gde32nn", "gde3p"]}},
+        "rule": "ask / external evaluation / tell loops of DE, NSDE, GDE3, GDE3MNN, GDE32NN, GDE3P, NSDE-R and the generic GeneticAlgorithm base (SBX or DEX crossover, PM, n_offsprings = or != pop_size) on random bounded problems (1..4 variables, 1..4 objectives, 0..2 constraints with shifted feasibility, grid-rounded objectives for exact ties), population sizes n_parents+1.., every selection / crossover / repair, five crowding metrics, RankAndCrowding / ConstrRankAndCrowding / the shared default survival object, optional PM, optionally after an unrelated run in the same process; one record per generation (2..5 per run): candidates handed to the survival, next population (object identities), optimum, sizes, evaluation counter, F(X) provenance; distinct = hash; non-trivial = an offspring entered the population",
+        "explanation": "theorems getRelation_one_iff / _neg_one_iff, gde3Slot_spec, gde3Candidates_length_ge, dominated_offspring_not_candidate, dominated_parent_not_candidate; correspondence: the candidate list handed to survival.do and the next population equal the model's (identities, order)",
+        "assumptions": ["individual identities are distinct (checked)", "survivors are candidates (C03)"],
+    },
+    "C06": {
+        "components": [("gen", 200, 5000)],
+        "gen_args": {"gen": {"algos": ["nsde", "gde3", "gde3mnn", "gde32nn", "gde3p", "nsder", "ga", "ea-dex"]}},
+        "rule": "ask / external evaluation / tell loops of DE, NSDE, GDE3, GDE3MNN, GDE32NN, GDE3P, NSDE-R and the generic GeneticAlgorithm base (SBX or DEX crossover, PM, n_offsprings = or != pop_size) on random bounded problems (1..4 variables, 1..4 objectives, 0..2 constraints with shifted feasibility, grid-rounded objectives for exact ties), population sizes n_parents+1.., every selection / crossover / repair, five crowding metrics, RankAndCrowding / ConstrRankAndCrowding / the shared default survival object, optional PM, optionally after an unrelated run in the same process; one record per generation (2..5 per run): candidates handed to the survival, next population (object identities), optimum, sizes, evaluation counter, F(X) provenance; distinct = hash; non-trivial = an offspring entered the population",
+        "explanation": "theorems pick_subset, nsde_new_pop_subset, gde3_new_pop_subset, no_survivor_dominated_by_discarded, nondominated_survive_if_fit, no_infeasible_over_feasible; NSDE-R: the reference-direction survival of pymoo is a checked oracle (contract evaluated on every record), the elitism clauses are checked on the real populations",
+        "assumptions": ["oracle contracts hold - evaluated on every record", "NSDE-R survival is pymoo's; only its contract is used"],
+    },
+    "C07": {
+        "components": [("gen", 220, 5000)],
+        "rule": "ask / external evaluation / tell loops of DE, NSDE, GDE3, GDE3MNN, GDE32NN, GDE3P, NSDE-R and the generic GeneticAlgorithm base (SBX or DEX crossover, PM, n_offsprings = or != pop_size) on random bounded problems (1..4 variables, 1..4 objectives, 0..2 constraints with shifted feasibility, grid-rounded objectives for exact ties), population sizes n_parents+1.., every selection / crossover / repair, five crowding metrics, RankAndCrowding / ConstrRankAndCrowding / the shared default survival object, optional PM, optionally after an unrelated run in the same process; one record per generation (2..5 per run): candidates handed to the survival, next population (object identities), optimum, sizes, evaluation counter, F(X) provenance; distinct = hash; non-trivial = an offspring entered the population",
+        "explanation": "theorems pick_ids_nodup, gde3Candidates_ids_nodup, advance_inv_unconstrained, advance_inv_constrained, merge_ok, gde3_ok, budget, reachable_inv, nsde_reachable_inv, gde3_reachable_inv (invariant by induction over histories); correspondence: next population equals the model's; sizes, evaluator counter and F(X)=stored F checked on the real objects every generation",
+        "assumptions": ["offspring objects are fresh (checked)", "problem.evaluate is a pure function of X (checked by re-evaluation)",
+                        "for the generic GeneticAlgorithm the infill is pymoo's Mating: only its output count is checked"],
+    },
+    "C08": {
+        "components": [("gen", 220, 5000)],
+        "rule": "ask / external evaluation / tell loops of DE, NSDE, GDE3, GDE3MNN, GDE32NN, GDE3P, NSDE-R and the generic GeneticAlgorithm base (SBX or DEX crossover, PM, n_offsprings = or != pop_size) on random bounded problems (1..4 variables, 1..4 objectives, 0..2 constraints with shifted feasibility, grid-rounded objectives for exact ties), population sizes n_parents+1.., every selection / crossover / repair, five crowding metrics, RankAndCrowding / ConstrRankAndCrowding / the shared default survival object, optional PM, optionally after an unrelated run in the same process; one record per generation (2..5 per run): candidates handed to the survival, next population (object identities), optimum, sizes, evaluation counter, F(X) provenance; distinct = hash; non-trivial = an offspring entered the population",
+        "explanation": "theorems later_front_has_dominator, rank0_iff_nondominated, argminCv_spec, opt_infeasible, opt_feasible_only, de_opt_single; correspondence: algorithm.opt after every tell() equals the model's setOptimum on the model's next population and fresh ranks",
+        "assumptions": ["oracle contracts hold", "NSDE-R: survival.opt is an oracle with contract 'feasible first-front candidates'"],
     },
 }
